@@ -237,3 +237,17 @@ Proof.
   split; [intros; reflexivity|]. split; [exact k_mogs_cat_model|]. split; [exact opv_subset_kernel|]. split; [exact gb_subset_kernel|].
   split; [exact k_evalfn_model|]. split; [exact uc_row_kernel|]. split; [exact uc_mean_kernel|]. exact embv_entry_kernel.
 Qed.
+
+(** * the optimal haploid value table: the row of a cross is the generated expression of _calc_ohvmat applied to the block values
+    gathered over every phase and EVERY parent of the cross-map row *)
+Lemma ohv_row_kernel H nb nt parents :
+  ohv_row H nb nt parents
+  = map (fun q => k_ohv maxl qsum (nq (length H)) (map (fun b => flat_map (fun Hp => map (fun i => hget Hp i b q) parents) H) (seq 0 nb))) (seq 0 nt).
+Proof. unfold ohv_row, k_ohv, sumf. apply map_ext. intros q. now rewrite map_map. Qed.
+Lemma ohvmat_on_kernel hap u bounds n t xmap :
+  ohvmat_on hap u bounds n t xmap
+  = map (fun parents => map (fun q => k_ohv maxl qsum (nq (length hap))
+           (map (fun b => flat_map (fun Hp => map (fun i => hget Hp i b q) parents) (haploval hap u bounds n t)) (seq 0 (length bounds)))) (seq 0 t)) xmap.
+Proof.
+  unfold ohvmat_on. apply map_ext. intros parents. rewrite ohv_row_kernel. unfold haploval at 1. now rewrite map_length.
+Qed.
